@@ -293,6 +293,11 @@ impl Watcher {
                     "The appointment contained invalid data {}",
                     appointment.locator()
                 );
+                // If this was an update, the slots have been settled against the stored version, which this one replaces:
+                // drop that one too (without refund), or its slots would be both given back and still in use.
+                if self.dbm.lock().unwrap().appointment_exists(uuid) {
+                    self.gatekeeper.delete_appointments(vec![uuid], false);
+                }
                 TriggeredAppointment::Invalid
             }
         }
